@@ -8,7 +8,7 @@ in the presence of arbitrary ephemeral behaviour.
 On the real code additionally a differential: the same pipeline with and without its ephemeral consumers, under the
 global virtual clock - the publisher's publish times must not be later and the synchronized sinks' inputs identical.
 """
-from . import common, topos, observers, simzmq
+from . import common, topos, observers, simzmq, proto
 from .common import Report
 from .proto import SimPipeline
 from .protocheck import Engine, replay_witness, run_schedule
@@ -96,6 +96,107 @@ def differential(eng, rep, topo, n, steps, mode):
         finally:
             p1.close()
             p2.close()
+
+
+def flow_topo(maxseq=1):
+    """S -> K synchronized, E a '?' listener; transport with back pressure (OFP!SubHWM = 1, PubHWM = 2)"""
+    from .proto import Topo
+    t = Topo('EphFlow', {'S': dict(nout=1, beh=topos.beh('origin', tseq=[['main']])),
+                         'K': dict(srcs=[topos.src('S')]),
+                         'E': dict(srcs=[topos.src('S', eph=1)])}, maxseq=maxseq, pub_hwm=2)
+    t.sub_hwm = 1
+    return t
+
+
+def listener_cannot_hold(eng, rep, ctx):
+    """liveness under FairStalled (a listener may stop reading for good, transport with back pressure): every origin still hands
+    off all its frames.  The design mutation track_wait (send() returns only when libzmq has released the buffers) must violate
+    it; the intended design is checked in the thorough tier (1.2 M states)."""
+    kw = dict(invariants=(), properties=('C05_ListenerCannotHold',), view=False, fault_kinds=('stall',), victims=('E',),
+              max_faults=1)
+    r = eng.model_check(flow_topo(), 'FairStalled', name='EphFlow/FairStalled/track_wait', expect_ok=False, defects=['track_wait'],
+                        timeout=900 if ctx.quick else 3000, **kw)
+    if not r.timed_out and not r.violated:
+        raise common.MachineryError('the design mutation track_wait satisfies C05_ListenerCannotHold: the formula is vacuous')
+    if not ctx.quick:
+        eng.model_check(flow_topo(), 'FairStalled', name='EphFlow/FairStalled', timeout=3000, **kw)
+
+
+def deaf_listener(eng, rep, ctx, ks):
+    """a connected '?' / '??' listener that stops reading, frames of more than 64 KiB (the size from which pyzmq hands buffers
+    to libzmq by reference), transport with back pressure (simzmq flow_control: the listener's SUB pipe takes RCVHWM messages and
+    no more, the publisher's pipe fills to ZMQ_PUB_HWM and drops from there): the synchronized consumer must get every frame,
+    exactly as without the listener.  Real MQ objects on both sides; OFP: SubHWM > 0, C05_ListenerCannotHold."""
+    import numpy as np
+    Z = proto.load_real()
+    from openfilter.filter_runtime.mq import MQ
+    from openfilter.filter_runtime.frame import Frame
+    nfr = 30           # the listener's pipes hold 2 + 20 messages = 11 frames
+    ks = list(ks)
+    for k in ks:
+        got = {}
+        for with_eph in (True, False):
+            rng = common.rng(ctx, f'deaf{k}')
+            w = simzmq.World(local_clocks=False)
+            w.flow_control, w.rcvhwm_of = True, {'E': 2}      # (everybody else: the library default of 1000)
+            simzmq.Context.world = w
+            Z.ZMQContext.context = (None, 0)
+            Z.time_ns, Z.sleep = w.time_ns, w.sleep
+            Z.ZMQ_CONN_TIMEOUT, Z.ZMQ_PUB_HWM, Z.ZMQ_PUSH_HWM = 10 ** 9, 20, 100
+            recv = []
+            eph = ('?', '??')[k % 2]
+
+            def origin():
+                mq = MQ(None, 'tcp://*:6000', 'S', outs_metrics=False, outs_filter=False, outs_jpg=False)
+                for i in range(nfr):
+                    img = np.full((150, 160, 3), (i * 17 + 3) % 256, np.uint8)       # 72 000 bytes raw
+                    while not mq.send({'main': Frame(img, {'i': i}, 'BGR')}, 100):
+                        pass
+                w.cur.park(('idle',))
+
+            def sink():
+                mq = MQ([('tcp://127.0.0.1:6000', None)], None, 'K')
+                while True:
+                    while (fr := mq.recv(100)) is None:
+                        pass
+                    recv.append((mq.send_state.msg_id, int(fr['main'].image[0, 0, 0])))
+
+            def listener():
+                mq = MQ([('tcp://127.0.0.1:6000' + eph, None)], None, 'E')
+                while (fr := mq.recv(100)) is None:
+                    pass
+                w.cur.park(('idle',))             # got one frame, stays connected, never reads again
+            w.spawn('S', origin)
+            w.spawn('K', sink)
+            if with_eph:
+                w.spawn('E', listener)
+
+            class P:
+                world = w
+                delivered = {'K': recv}
+                oseq = {'S': 0}
+                stalled = set()
+
+                def enabled(self):
+                    return w.enabled()
+
+                def do(self, a):
+                    w.do(a)
+            try:
+                run_schedule(P(), rng, 12000, p_timeout=0.0, quiet=400)
+            finally:
+                w.record_events = False
+                w.kill_all()
+            got[with_eph] = list(recv)
+        rep.case(('deaf-listener', k), nontrivial=len(got[False]) == nfr)
+        rep.traces += 2
+        if got[True] != got[False]:
+            rep.violation(f'C05_SyncUnchanged: with a connected {eph!r} listener that has stopped reading, the synchronized consumer gets '
+                          f'frames {[x[0] for x in got[True]]} of {nfr} (72 000-byte images), without the listener '
+                          f'{[x[0] for x in got[False]]}  [deaf-listener {k}]',
+                          {'how': {'kind': 'deaf-listener', 'k': k, 'seed': ctx.seed}, 'with': got[True], 'without': got[False]},
+                          {'formula': 'C05_SyncUnchanged', 'topology': 'DeafListener'})
+    print(f'  [diff] deaf listener: {len(ks)} runs with a listener that stops reading (flow control, 72 kB frames)', flush=True)
 
 
 def listener_last_restart(eng, rep, n):
@@ -211,12 +312,20 @@ def run(ctx):
         eng.random_runs(topo, n, steps, p_timeout=pt, p_drop=pd, tag='rand', validate=3 if ctx.quick else 25)
     for topo, n, steps, mode in sc['diff']:
         differential(eng, rep, topo, n, steps, mode)
+    deaf_listener(eng, rep, ctx, range(4 if ctx.quick else 24))
+    listener_cannot_hold(eng, rep, ctx)
     return rep.finish()
 
 
 def replay(ctx):
     import json
     how = json.load(open(ctx.replay))['witness']['how']
+    if how.get('kind') == 'deaf-listener':
+        rep = Report(ctx)
+        deaf_listener(Engine(ctx, rep, PROPS), rep, ctx, [how['k']])
+        for v in rep.violations:
+            print('VIOLATION-REPRODUCED', v[0][:300])
+        return 1 if rep.violations else 0
     if how.get('kind') == 'differential':
         print('differential witnesses are re-run by the check itself (seeded): ./check C05 with VERIF_SEED=%s' % how['seed'])
         return run(ctx)
